@@ -8,14 +8,14 @@ VERIF = os.path.dirname(os.path.dirname(os.path.abspath(__file__)))
 
 def main():
     ap = argparse.ArgumentParser()
-    ap.add_argument('prop'); ap.add_argument('n'); ap.add_argument('--src', default='/tmp/wt/out'); ap.add_argument('--name', default=None)
+    ap.add_argument('prop'); ap.add_argument('n'); ap.add_argument('--src', default='/tmp/wt/out'); ap.add_argument('--name', default=None); ap.add_argument('--wt', default=None)
     a = ap.parse_args()
     d = os.path.join(a.src, a.prop, a.n)
     patch, demo, notes = (os.path.join(d, f) for f in ('patch.diff', 'demo.py', 'notes.md'))
     for f in (patch, demo):
         if not os.path.exists(f):
             print('missing', f); return 2
-    wt = f'/tmp/wt/{a.prop}'   # the demos assert that kernpy is imported from the seeder's own worktree
+    wt = a.wt or f'/tmp/wt/{a.prop}'   # the demos assert that kernpy is imported from the seeder's own worktree
     r = subprocess.run([sys.executable, os.path.join(VERIF, 'tools/eval_patch.py'), patch, '--demo', demo, '--tests', '--wt', wt], capture_output=True, text=True)
     try:
         res = json.loads(r.stdout)
@@ -38,7 +38,7 @@ def main():
         'repo_head': head,
         'needs_to_manifest': open(notes).read().strip()[:1500] if os.path.exists(notes) else '',
         'what_was_run': [
-            f'git apply patch.diff in the scratch worktree /tmp/wt/{a.prop} of /repo at repo_head (never in /repo); the demo asserts that path',
+            f'git apply patch.diff in the scratch worktree {wt} of /repo at repo_head (never in /repo); the demo asserts that path',
             'PYTHONPATH=<worktree> /venv/bin/python demo.py on the clean tree (exit 0) and on the patched tree (exit != 0)',
             'tools/run_baseline.py <worktree>: pinned suite, 276/276 stable tests pass with the patch',
             './check Cnn --repo <worktree> for all twenty properties',
